@@ -222,6 +222,141 @@ def run(ctx):
                         ctx.add('COLOR', f, 'fresh-node', 'ok', 'a freshly linked non-root node is red (black heights unchanged by the insertion itself)', PROPS, line)
                     else:
                         ctx.add('COLOR', f, 'fresh-node', 'violation', 'a freshly linked non-root node is coloured %s: the path through it gets one more black node than its siblings' % name, PROPS, line)
+    # ---------------- FRESH (a slot taken from the pool enters the tree as a leaf) ----------------
+    # Slots are recycled, so a fresh node's child links are whatever the slot's previous life left there unless somebody
+    # resets them.  Either the allocating function writes EMPTY_REF into both child links (and some parent) on every
+    # path to its return, or the reset is a discipline of the release side: the pool's filler value has EMPTY_REF there
+    # and every release of a slot anywhere in the tree is dominated by a reset of that slot's link.
+    n_fresh = 0
+    for tree in sorted(prog.tree_adts):
+        pool, _ = tree_pool(prog, tree)
+        r = roles.get(pool)
+        if not r:
+            continue
+        fns = [f for f in prog.fns.values() if f.self_adt == tree and not f.is_closure]
+        for f in fns:
+            for c in calls_to(prog, f, r['alloc']):
+                from summaries import writes_to
+                if f.body.locals[0]['ty'].split('<')[0] == tree:
+                    continue        # the constructor takes the sentinel's slot (NILSTATE)
+                n_fresh += 1
+                w = writes_to(prog, f, c)
+                line = span_line(c, f.line)
+                missing = []
+                for F in ('left', 'right'):
+                    sites = [site for (flds, vd, site, vv) in w if flds == (F,) and vd == ('const', 'EMPTY_REF')]
+                    if not any(cuts_all_returns(f.body, c.point[0], site.point[0]) for site in sites):
+                        missing.append(F)
+                if not any(flds == ('parent',) for (flds, vd, site, vv) in w):
+                    missing.append('parent')
+                if not missing:
+                    ctx.add('FRESH', f, 'fresh-leaf', 'ok', 'both child links of the slot taken from the pool are set to EMPTY_REF and its parent link is written before the function returns', ['C02'] + family_props(f), line)
+                    continue
+                why = release_side_resets(prog, tree, r, fns, [m for m in missing if m != 'parent']) if 'parent' not in missing else 'the parent link of the fresh node is never written'
+                if why is None:
+                    ctx.add('FRESH', f, 'fresh-leaf', 'ok', 'the %s link(s) are not written here; they are reset before every release of a slot and the pool is filled with nodes whose links are EMPTY_REF' % '/'.join(missing), ['C02'] + family_props(f), line)
+                else:
+                    ctx.add('FRESH', f, 'fresh-leaf', 'violation', 'the slot taken from the pool keeps the %s link(s) of its previous life: not written on every path before the function returns, and %s (a recycled inner node brings its old subtree back: lookups find removed entries, the tree can become cyclic)' % ('/'.join(missing), why), ['C02'] + family_props(f), line)
+    ctx.stat('FRESH', allocations=n_fresh)
+    if n_fresh < 6:
+        ctx.anchor_missing('FRESH', 'allocation sites in the three trees', ['C02'], n_fresh, 6)
+    # ---------------- DROP (a reference to a node is cleared only where the node is released) ----------------
+    # `root = EMPTY_REF` or `node(p).left|right = EMPTY_REF` cuts a node (and what hangs below it) off the tree.  Outside
+    # the constructor and `clear`, every path of the function through such a store must also pass a release of a slot
+    # (directly, or in a helper that releases on all its paths); a helper that only cuts is judged at its call sites.
+    from rules.pool import release_summary
+    n_drop = 0
+    for tree in sorted(prog.tree_adts):
+        pool, _ = tree_pool(prog, tree)
+        r = roles.get(pool)
+        if not r:
+            continue
+        fns = [f for f in prog.fns.values() if f.self_adt == tree and not f.is_closure]
+        S = {f.path: release_summary(prog, f, r, fns) for f in fns}
+
+        def releasing_blocks(f):
+            out = set()
+            for c in f.body.calls:
+                tgt = prog.resolve(c)
+                if tgt is None:
+                    continue
+                if tgt in r['release'] or (tgt.path in S and tgt.path != f.path and 0 not in S[tgt.path]):
+                    out.add(c.point[0])
+            return out
+
+        def path_without_release(f, blk, target, depth=0):
+            """is there a path entry -> blk -> return of f that passes no releasing block?  If blk's function is a
+            private helper and such a path exists, the question is passed on to its call sites.  `target` is the
+            node whose link is cleared (None for the root): clearing a link of the slot just taken from the pool or
+            of the sentinel cuts nothing off."""
+            b = f.body
+            rel = releasing_blocks(f)
+            if blk in rel:
+                return None
+            t = strip(target) if target is not None else None
+            if t is not None:
+                if prog.is_nil_index(t) or (t.kind == 'call' and prog.resolve(t) in r['alloc']):
+                    return None
+            # backwards from blk to entry, forwards from blk to a return, both avoiding rel
+            def reach(start, nxt, goal):
+                seen, todo = {start}, [start]
+                while todo:
+                    x = todo.pop()
+                    if goal(x):
+                        return True
+                    for y in nxt(x):
+                        if y not in seen and y not in rel:
+                            seen.add(y)
+                            todo.append(y)
+                return False
+            back = reach(blk, lambda x: b.cfg.pred.get(x, []) if isinstance(b.cfg.pred, dict) else b.cfg.pred[x], lambda x: x == 0)
+            fwd = reach(blk, lambda x: b.cfg.succ[x], lambda x: x in b.ret_val)
+            if not (back and fwd):
+                return None
+            callers = [(c, g) for c, g in prog.callers(f) if g.self_adt == tree and c.kind == 'call' and g.path != f.path]
+            if f.trait_item or f.vis == 'Public' or not callers or depth >= 3:
+                return f
+            for c, g in callers:
+                if g.trait_method() == 'clear' or g.body.locals[0]['ty'].split('<')[0] == tree:
+                    continue
+                t2 = None
+                if t is not None and t.kind == 'param' and t.args[0] - 1 < len(c.args):
+                    t2 = c.args[t.args[0] - 1]
+                w = path_without_release(g, c.point[0], t2, depth + 1)
+                if w is not None:
+                    return w
+            return None
+
+        for f in fns:
+            if f.trait_method() == 'clear' or f.body.locals[0]['ty'].split('<')[0] == tree:
+                continue
+            b = f.body
+            allocs = {c.id for c in calls_to(prog, f, r['alloc'])}
+            for st in b.stores:
+                if not prog.is_empty_ref(strip(st.value)):
+                    continue
+                flds = st.fields()
+                what = None
+                target = None
+                if strip(st.root).kind == 'param' and flds == ('root',):
+                    what = 'root'
+                else:
+                    acc = prog.accessor_call(strip(st.root))
+                    if acc is not None and len(flds) == 1 and flds[0] in ('left', 'right') and strip(acc[2]).id not in allocs:
+                        what = flds[0]
+                        target = acc[2]
+                if what is None:
+                    continue
+                n_drop += 1
+                w = path_without_release(f, st.point[0], target)
+                line = span_line(st, f.line) if hasattr(st, 'span') and st.span else f.line
+                if w is None:
+                    ctx.add('DROP', f, 'cut(%s)' % what, 'ok', 'every path through this `%s = EMPTY_REF` also releases a slot (here or at every call site of this helper)' % what, ['C11'], line)
+                else:
+                    ctx.add('DROP', f, 'cut(%s)' % what, 'violation', '`%s = EMPTY_REF` cuts a node off the tree on a path of %s that releases no slot: the node is neither in the tree nor on the free list (a slot is lost each time)' % (what, w.name), ['C11'], line)
+    ctx.stat('DROP', cuts=n_drop)
+    if n_drop < 6:
+        ctx.anchor_missing('DROP', 'stores of EMPTY_REF into the root or a child link outside constructor and clear', ['C11'], n_drop, 6)
     # ---------------- CLIMB (child / parent cursor pairs of upward loops) ----------------
     n_climb = 0
     for tree in sorted(prog.tree_adts):
@@ -383,3 +518,78 @@ def kstr(fn, kk):
         return '<result>'
     v = fn.body._vals[kk[1]] if kk[0] == 'val' and 0 <= kk[1] < len(fn.body._vals) else None
     return show(v, 2) if v is not None else '?'
+
+
+def family_props(f):
+    return {'map': ['C04'], 'set': ['C05'], 'key': ['C06']}.get(f.family, [])
+
+
+def cuts_all_returns(b, start, blk):
+    """every path from block `start` to a return passes through block `blk`"""
+    if blk == start:
+        return True
+    seen, todo = {start}, [start]
+    while todo:
+        x = todo.pop()
+        if x in b.ret_val:
+            return False
+        for y in b.cfg.succ[x]:
+            if y != blk and y not in seen and y in b.cfg.can_return:
+                seen.add(y)
+                todo.append(y)
+    return True
+
+
+def release_side_resets(prog, tree, r, fns, fields):
+    """None if the links `fields` of every released slot are reset on the release side; else the reason (text)"""
+    from summaries import node_writes, val_desc
+    from rules.pool import calls_to
+    if not fields:
+        return None
+    # the filler value of the pool
+    import re
+    node_adts = [a for a in prog.node_adts if a.split('::')[0] == tree.split('::')[0]]
+    filler_ok = False
+    for f in prog.fns.values():
+        if f.name == 'default' and f.self_adt in node_adts and f.info.get('mir'):
+            from ssa import walk
+            for rv in f.body.ret_val.values():
+                for x in walk(rv):
+                    if x.kind == 'agg' and (x.extra.get('path') or '') == f.self_adt:
+                        names = (x.extra.get('variant') or {}).get('fields') or []
+                        vals = dict(zip(names, x.args))
+                        if all(F in vals and prog.is_empty_ref(strip(vals[F])) for F in fields):
+                            filler_ok = True
+    if not filler_ok:
+        return 'the pool\'s filler node does not have EMPTY_REF there either'
+    n_rel = 0
+    for f in fns:
+        rel = calls_to(prog, f, r['release'])
+        if not rel:
+            continue
+        b = f.body
+        for c in rel:
+            n_rel += 1
+            slot = strip(c.args[1]) if len(c.args) > 1 else None
+            for F in fields:
+                ok = False
+                for st in b.stores:
+                    acc = prog.accessor_call(strip(st.root))
+                    if acc is not None and st.fields() == (F,) and strip(acc[2]) is slot and prog.is_empty_ref(strip(st.value)) and b.cfg.dominates(st.point[0], c.point[0]):
+                        ok = True
+                if not ok:
+                    # the walk over the free list in `clear` visits every slot it has just released (POOL decides that):
+                    # a reset of the slot read back from the free list, inside that loop, is the reset of the released slot
+                    loops = b.cfg.loops()
+                    for st in b.stores:
+                        acc = prog.accessor_call(strip(st.root))
+                        if acc is None or st.fields() != (F,) or not prog.is_empty_ref(strip(st.value)) or not any(st.point[0] in body for body in loops.values()):
+                            continue
+                        from ssa import walk
+                        if any(x.kind in ('load', 'ref', 'call') and r['free'] and r['free'][-1] in ' '.join(map(str, x.fields() if x.kind in ('load', 'ref') else [])) for x in walk(acc[2])):
+                            ok = True
+                if not ok:
+                    return '%s releases a slot without resetting its %s link' % (f.name, F)
+    if n_rel == 0:
+        return 'no release site found'
+    return None
